@@ -214,8 +214,51 @@ def replay(case, ob, inputs):
             r = C.call_native(_native_read, side, ent)
             again = C.call_native(write_paths._write_data, ent, {'c': 4})
             outcomes.append({'cut': cut, 'read': repr(r)[:120], 'read_ok': r[0] == 'ret' and r[1] in ((old or {}), new), 'next_write': again[0] == 'ret'})
+        # the process dies immediately BEFORE the k-th file-system effect of the write (every effect point of the real function, found by counting)
+        import os as _os
+        targets = [(pathlib.Path, 'write_text'), (pathlib.Path, 'unlink'), (pathlib.Path, 'rename'), (pathlib.Path, 'replace'), (_os, 'replace'), (_os, 'rename'), (_os, 'unlink'), (_os, 'remove')]
+        def run_with_crash_before(k):
+            count = [0]; saved = [(o, n, getattr(o, n)) for o, n in targets]
+            def wrap(f):
+                def g(*a, **kw):
+                    if g.depth == 0:
+                        count[0] += 1
+                        if k is not None and count[0] == k: raise KeyboardInterrupt('crash')
+                    g.depth += 1
+                    try: return f(*a, **kw)
+                    finally: g.depth -= 1
+                g.depth = 0; return g
+            shared = wrap(lambda: None)
+            for o, n, f in saved:
+                w = wrap(f); setattr(o, n, w)
+            try:
+                try: write_paths._write_data(ent, {'b': 3})
+                except KeyboardInterrupt: pass
+            finally:
+                for o, n, f in saved: setattr(o, n, f)
+            return count[0]
+        def reset():
+            for q in side.parent.glob('.*'):
+                if q != side and q.is_file(): q.unlink()
+            if old is not None: side.write_text(json.dumps(old))
+            elif side.exists(): side.unlink()
+        reset(); n_effects = run_with_crash_before(None)
+        for k in range(1, min(n_effects, 12) + 1):
+            reset(); run_with_crash_before(k)
+            r = C.call_native(_native_read, side, ent)
+            again = C.call_native(write_paths._write_data, ent, {'c': 4})
+            outcomes.append({'crash-before-effect': k, 'read': repr(r)[:120], 'read_ok': r[0] == 'ret' and r[1] in ((old or {}), new), 'next_write': again[0] == 'ret'})
+        reset()
+        # a temporary file left behind by an earlier crash (any name the writer would use next to the sidecar) must not make the next write fail
+        if old is not None: side.write_text(json.dumps(old))
+        elif side.exists(): side.unlink()
+        for stale in (side.with_name(side.name + '.tmp'),):
+            stale.write_text('{"b": ')
+            again = C.call_native(write_paths._write_data, ent, {'b': 3})
+            r = C.call_native(_native_read, side, ent)
+            outcomes.append({'stale-temp-file': stale.name, 'read': repr(r)[:120], 'read_ok': r[0] == 'ret' and r[1] == new, 'next_write': again[0] == 'ret' and again[1] is True})
         bad = [o for o in outcomes if not (o['read_ok'] and o['next_write'])]
-        return {'confirmed': bool(bad), 'call': 'real _write_data interrupted inside Path.write_text (after truncation / after 5 bytes), then get_data-like read and another _write_data', 'observed': repr(outcomes)[:500], 'expected': 'old or new data; next write succeeds'}
+        return {'confirmed': bool(bad), 'call': 'real _write_data interrupted inside Path.write_text (after truncation / after 5 bytes), then get_data-like read and another _write_data; then a write with a stale temporary file present', 'observed': repr(outcomes)[:500], 'expected': 'old or new data; next write succeeds'}
     finally: shutil.rmtree(tmp, ignore_errors=True)
 
 def _native_read(side, ent):
